@@ -132,6 +132,11 @@ func cmdC14Put(args []string, in *bufio.Scanner, out *bufio.Writer) {
 		fmt.Fprintln(out, `{"begin":1}`)
 		out.Flush()
 		res := c14RunCase(&c)
+		if !mlrval.VerifNullIntact() {
+			// the case converted the shared NULL constant in place: say so, and restore it for the next case
+			res["null_corrupted"] = true
+			mlrval.VerifResetNull()
+		}
 		b, _ := json.Marshal(res)
 		out.Write(b)
 		out.WriteString("\n")
